@@ -58,6 +58,7 @@ def box(rng, quick):
     m.d = 0.03
     m.r = 0.01
     ms["cgmy_updated"] = m
+    ms["cgmy_direct"] = create_exponential_of_levy_model(ModelType.CGMY)(r=0.01, d=0.03)
     return ms
 
 
@@ -192,17 +193,25 @@ def main():
     out, tier, seed = sys.argv[1], sys.argv[2], int(sys.argv[3])
     quick = tier == "quick"
     rng = random.Random(seed + 31)
-    ms = box(rng, quick)
     traces = []
+    try:
+        ms = box(rng, quick)
+        rnd = random_box(rng, 1 if quick else 8)
+    except Exception as ex:
+        # a model of the documented box cannot even be built: a recorded exception, not a crash of the driver
+        ms, rnd = {}, []
+        traces.append({"hdr": {"kind": "pricer:box", "T100": 0, "tol": 300, "tola": 60, "tolp": 3},
+                       "ev": [{"e": "Raise", "what": "constructor: " + type(ex).__name__ + ": " + str(ex)[:80]}]})
     mats = [0.02, 0.1, 0.5, 1.0, 2.0] if quick else [0.02, 0.05, 0.1, 0.25, 0.5, 1.0, 1.5, 2.0]
     for name, m in ms.items():
+        if name == "cgmy_direct":
+            continue
         for T in mats:
             twin = ms["vg_as_cgmy"] if name == "vg" else None
             if name == "cgmy_updated":      # the same model built directly with the final rates
-                from rpylib.model.utils import create_exponential_of_levy_model, ModelType
-                twin = create_exponential_of_levy_model(ModelType.CGMY)(r=0.01, d=0.03)
+                twin = ms["cgmy_direct"]
             traces.append(one(name, m, T, rng, quick, twin=twin))
-    for name, m in random_box(rng, 1 if quick else 8):
+    for name, m in rnd:
         for T in ([0.5] if quick else [0.1, 0.5, 1.0, 2.0]):
             traces.append(one(name, m, T, rng, True, light=True))
     traces.append(degenerate(rng))
